@@ -43,10 +43,24 @@ def _normalize_title_quotes(title: str) -> str:
     """
     Normalize title quotes.
     """
-    # The parser hands over the title without its delimiters: every quote character in it
-    # belongs to the title and is escaped, none is stripped.
-    escaped = title.replace('"', '\\"')
+    # The parser hands over the title without its delimiters and with its backslash escapes
+    # removed: every quote character in it belongs to the title and is escaped, none is
+    # stripped, and a backslash that would read as an escape is doubled.
+    escaped = _escape_backslashes(title).replace('"', '\\"')
     return f'"{escaped}"'
+
+
+_ESCAPING_BACKSLASH_RE = re.compile(r"\\(?=[!-/:-@\[-`{-~]|\Z)")
+
+
+def _escape_backslashes(text: str) -> str:
+    """
+    Double every backslash that would be read as an escape: one followed by an ASCII
+    punctuation character, or the last character (a delimiter follows it in the output).
+    The parser removes such escapes from destinations and titles, so the backslashes it
+    hands over are all literal.
+    """
+    return _ESCAPING_BACKSLASH_RE.sub(r"\\\\", text)
 
 
 def _autolink_text(element: Any) -> str:
@@ -63,7 +77,9 @@ def _autolink_text(element: Any) -> str:
 def _link_destination(dest: str) -> str:
     """
     A destination that is empty, contains whitespace or has unbalanced parentheses is only
-    valid inside `<...>`.
+    valid inside `<...>`. The parser hands the destination over with its backslash escapes
+    removed, so literal backslashes and angle brackets that would be read as syntax get
+    their escape back.
     """
     depth = 0
     balanced = True
@@ -74,9 +90,13 @@ def _link_destination(dest: str) -> str:
             depth -= 1
             if depth < 0:
                 balanced = False
+    escaped = _escape_backslashes(dest)
     if dest == "" or any(c.isspace() for c in dest) or depth != 0 or not balanced:
-        return f"<{dest}>"
-    return dest
+        escaped = escaped.replace("<", "\\<").replace(">", "\\>")
+        return f"<{escaped}>"
+    if escaped.startswith("<"):
+        escaped = "\\" + escaped
+    return escaped
 
 
 def _min_fence_length(code_content: str, fence_char: str = "`") -> int:
